@@ -37,9 +37,9 @@ type minst struct {
 	log      []uint32
 	closed   bool
 	code     uint32
-	recDirty bool // a stack exhaustion ran in this instance: rec must be re-read (and have grown)
+	recDirty bool   // a stack exhaustion ran in this instance: rec must be re-read (and have grown)
 	recDelta uint64 // recursion steps observed in the current step
-	peer     int  // index of the instance whose run is imported; -1 = itself
+	peer     int    // index of the instance whose run is imported; -1 = itself
 }
 
 type model struct {
